@@ -16,11 +16,12 @@ import re
 import lxml.html
 
 from prosemirror.model import DOMParser, DOMSerializer, Fragment, Node, Schema
-from prosemirror.model.from_dom import from_html
+from prosemirror.model import from_dom as from_dom_mod
+from prosemirror.model.from_dom import NodeContext, ParseContext, ParseOptions, from_html
 from prosemirror.schema.basic import schema as basic_schema
 from prosemirror.test_builder import test_schema as list_schema
 
-from .. import core, gen, schemas
+from .. import codec, core, gen, schemas
 from ..core import outcome
 from ..validator import validator
 
@@ -146,6 +147,126 @@ def carried_attrs(doc):
     return ok[0] and doc.attrs.get("meta") is None
 
 
+# ---------------------------------------------------------------------------------------------
+# tie of ParseContext.matches_context (PM/FromDom.lean: matchesContext)
+
+PY_SPACES = [" ", " ", "  ", "\t", "\n", "\u00a0", "\u2003", "\x1c", "\x85", "\u3000", "\u200b"]   # the last one is NOT \s
+
+
+def gen_context_expr(rng, info, visible):
+    """a context expression: names / groups / unknown names, `/`, `//`, leading, trailing and doubled slashes, `|` with
+    whitespace; biased towards expressions derived from the visible ancestors so that matches happen"""
+    schema = info.schema
+    names = list(schema.nodes.keys())
+    groups = sorted({g for t in schema.nodes.values() for g in t.groups}) or ["block"]
+
+    def one():
+        parts = []
+        if visible and rng.random() < 0.7:
+            k = rng.randint(1, min(4, len(visible)))
+            for t in visible[-k:]:
+                r = rng.random()
+                if r < 0.55:
+                    parts.append(t.name)
+                elif r < 0.75 and t.groups:
+                    parts.append(rng.choice(t.groups))
+                elif r < 0.9:
+                    parts.append("")
+                else:
+                    parts.append(rng.choice(names + groups))
+            if rng.random() < 0.3:
+                parts.insert(rng.randint(0, len(parts)), "")
+        else:
+            for _ in range(rng.randint(0, 4)):
+                r = rng.random()
+                parts.append(rng.choice(names) if r < 0.45 else rng.choice(groups) if r < 0.65 else "" if r < 0.85
+                             else rng.choice(["zzz", "Doc", "p", " ", "doc ", "block|"]).replace("|", ""))
+        e = "/".join(parts)
+        r = rng.random()
+        if r < 0.45:
+            e += "/"
+        elif r < 0.6:
+            e += "//"
+        if rng.random() < 0.15:
+            e = "/" + e
+        if rng.random() < 0.07:
+            e = "/" + e
+        if rng.random() < 0.06:
+            e = rng.choice(PY_SPACES) + e
+        if rng.random() < 0.06:
+            e = e + rng.choice(PY_SPACES)
+        return e
+    alts = [one() for _ in range(1 if rng.random() < 0.6 else rng.randint(2, 3))]
+    out = alts[0]
+    for a in alts[1:]:
+        out += rng.choice(["", "", " "] + PY_SPACES) + "|" + rng.choice(["", "", " "] + PY_SPACES) + a
+    return out
+
+
+def context_tie(ctx, infos):
+    """drive the real `ParseContext.matches_context` on real ParseContext objects whose stack of open NodeContexts (and
+    `open`, `is_open`, `options.context`, `options.top_node`) is generated, and compare every answer with the model"""
+    rng = ctx.rng
+    reqs, metas = [], []
+    for _ in range(ctx.budget(60, 600)):
+        if ctx.time_left() < 0:
+            break
+        info = rng.choice(infos)
+        schema = info.schema
+        sid = ctx.driver.add_schema(info)
+        parser = DOMParser.from_schema(schema)
+        is_open = rng.random() < 0.25
+        rp = None
+        if rng.random() < 0.4:
+            d = gen.gen_doc(rng, schema, budget=rng.choice([6, 12, 25]))
+            rp = d.resolve(rng.randint(0, d.content.size))
+        top_node = None
+        if not is_open and rng.random() < 0.3:
+            cands = [t for t in schema.nodes.values() if not t.is_leaf and not t.has_required_attrs()]
+            if rp is not None and rng.random() < 0.6:
+                top_node = rp.parent.type.create()
+            else:
+                top_node = rng.choice(cands).create()
+        pc = ParseContext(parser, ParseOptions(context=rp, top_node=top_node), is_open)
+        types = [t for t in schema.nodes.values() if not t.is_text]
+        for _ in range(rng.choice([0, 0, 1, 2, 3, 4, 6])):
+            t = rng.choice(types)
+            pc.nodes.append(NodeContext(t, None, [], [], False, None, 0))
+        pc.open = rng.randint(0, len(pc.nodes) - 1) if rng.random() < 0.5 else len(pc.nodes) - 1
+        visible = []
+        if rp is not None:
+            visible += [rp.node(i).type for i in range(rp.depth + 1)]
+        visible += [n.type for n in pc.nodes[:pc.open + 1] if n.type is not None]
+        exprs = [gen_context_expr(rng, info, visible) for _ in range(8)]
+        answers = []
+        for e in exprs:
+            st, v = outcome(lambda: pc.matches_context(e), 2.0)
+            ctx.count("matches_context:" + (str(v) if st == "ok" else st))
+            answers.append(v if st == "ok" else {"raised": st, "what": v})
+            ctx.case(["matches_context", info.name, [n.type.name if n.type else None for n in pc.nodes], pc.open, is_open,
+                      None if rp is None else [rp.node(i).type.name for i in range(rp.depth + 1)], e],
+                     nontrivial=bool(e.strip("/ |")), sample={"op": "matches_context", "schema": info.name, "expr": e,
+                                                             "stack": [n.type.name if n.type else None for n in pc.nodes]})
+        req = {"op": "matchesContext", "s": sid,
+               "groups": [list(schema.nodes[n].groups) for n in info.node_names],
+               "nodes": [None if n.type is None else info.nid[n.type.name] for n in pc.nodes],
+               "open": pc.open, "isOpen": is_open,
+               "ctx": None if rp is None else [info.nid[rp.node(i).type.name] for i in range(rp.depth + 1)],
+               "exprs": exprs}
+        reqs.append(req)
+        metas.append(answers)
+    if reqs:
+        outs = ctx.driver.run(reqs)
+        for req, answers, out in zip(reqs, metas, outs):
+            ctx.count("model_requests")
+            got = out.get("ok")
+            if got != answers:
+                bad = [i for i in range(len(answers)) if not isinstance(got, list) or got[i] != answers[i]]
+                ctx.mismatch("matchesContext", dict(req, first_bad_expr=req["exprs"][bad[0]] if bad else None), answers, got if got is not None else out)
+            else:
+                ctx.count("matches_context:agree", len(answers))
+
+
 def run(ctx):
     core.lean_phase(ctx)
     rng = ctx.rng
@@ -153,6 +274,9 @@ def run(ctx):
     cschema = context_schema()
     parse_schemas = [("basic", basic_schema), ("list", list_schema), ("context", cschema)]
     parsers = {name: DOMParser.from_schema(s) for name, s in parse_schemas}
+    cinfo = codec.SchemaInfo(cschema, "context")
+    ctx.guard(lambda: context_tie(ctx, [schemas.by_name("basic"), schemas.by_name("list"), cinfo, schemas.by_name("table"),
+                                        schemas.by_name("marks-x")]), "context_tie")
     # ---- import: total and valid
     for _ in range(ctx.budget(250, 2500)):
         if ctx.time_left() < 0:
